@@ -191,6 +191,23 @@ def r09_3(ctx):
             if d.get("original") != ("param", 2):
                 bad.append("original is %s" % show(d.get("original"), f))
         r.ob("case:from_config", not bad and n >= 6, f.site, "path_and_query_matching == (flag ? lowercase(path_and_query) : path_and_query) at every construction (%d returns)" % n if not bad else sorted(set(bad))[0])
+        # both sides fold the case of the *escaped* text (escape, then lower-case): folding before escaping gives other
+        # bytes for non-ASCII letters (`É` -> `%c3%89`, `é` -> `%c3%a9`), so the side that does it no longer meets the other
+        folded = []
+        n_enc = 0
+        for g_ in F.fn_list:
+            if g_.derived:
+                continue
+            pv_ = None
+            for bi, t, cal in g_.calls():
+                if cal is None or cal.name not in ("utf8_percent_encode", "percent_encode"):
+                    continue
+                n_enc += 1
+                pv_ = pv_ or Prov(g_, copies=True)
+                a = pv_.operand(t["args"][0])
+                if mentions(a, lambda y: y[0] == "call" and y[1].rsplit("::", 1)[-1] in ("to_lowercase", "to_ascii_lowercase", "to_uppercase", "to_ascii_uppercase", "make_ascii_lowercase")):
+                    folded.append("%s (%s)" % (g_.key, g_.loc(span_line(t["s"]))))
+        r.ob("case:fold-after-escape", not folded and n_enc >= 4, f.site, "none of the %d percent-encoding calls is fed a case-folded text" % n_enc if not folded else "percent-encoding of a case-folded text in %s" % ", ".join(folded[:3]))
         # Request::path_and_query() prefers the matching form
         g = F.fn("http::request::Request::path_and_query")
         rows = {}
